@@ -131,3 +131,39 @@ pub proof fn lemma_ival_facts(s: Seq<u8>, radix: u32)
         if s.len() > 0 && s[0] != 48 { lemma_ipow_pos(radix as int, s.len() as int - 1); }
     }
 }
+// the first d digits of a decimal fraction as a d-digit numerator (padded with zeros when there are fewer)
+pub open spec fn dpfx(s: Seq<u8>, d: int) -> int {
+    if s.len() <= d { dval(s, 10) * ipow(10, d - s.len() as int) } else { dval(s.take(d), 10) }
+}
+pub proof fn lemma_dpfx_bound(s: Seq<u8>, d: int)
+    requires dec_digits(s), d >= 0
+    ensures 0 <= dpfx(s, d) < ipow(10, d)
+{
+    if s.len() <= d {
+        lemma_dval_bounds(s);
+        let (v, a, b) = (dval(s, 10), ipow(10, s.len() as int), ipow(10, d - s.len() as int));
+        lemma_ipow_add(10, s.len() as int, d - s.len() as int); lemma_ipow_pos(10, d - s.len() as int);
+        assert(v * b < a * b) by (nonlinear_arith) requires 0 <= v < a, b >= 1;
+        assert(v * b >= 0) by (nonlinear_arith) requires 0 <= v, b >= 1;
+    } else {
+        let t = s.take(d);
+        assert(dec_digits(t)) by { assert forall|i: int| 0 <= i < t.len() implies 48 <= #[trigger] t[i] < 48 + 10 by { assert(t[i] == s[i]); } }
+        lemma_dval_bounds(t);
+    }
+}
+pub proof fn lemma_ipow_add(b: int, m: int, n: int)
+    requires m >= 0, n >= 0
+    ensures ipow(b, m + n) == ipow(b, m) * ipow(b, n)
+    decreases m
+{
+    if m == 0 { assert(ipow(b, 0) == 1); assert(1 * ipow(b, n) == ipow(b, n)) by (nonlinear_arith); }
+    else { lemma_ipow_add(b, m - 1, n); assert(b * (ipow(b, m - 1) * ipow(b, n)) == (b * ipow(b, m - 1)) * ipow(b, n)) by (nonlinear_arith); }
+}
+pub proof fn lemma_ipow_mono(b: int, m: int, n: int)
+    requires b >= 1, 0 <= m <= n
+    ensures 1 <= ipow(b, m) <= ipow(b, n)
+    decreases n - m
+{
+    lemma_ipow_pos(b, m);
+    if m < n { lemma_ipow_mono(b, m + 1, n); assert(ipow(b, m + 1) == b * ipow(b, m)); assert(b * ipow(b, m) >= ipow(b, m)) by (nonlinear_arith) requires b >= 1, ipow(b, m) >= 1; }
+}
